@@ -1,0 +1,18 @@
+//go:build verif
+
+package mod
+
+import (
+	"time"
+
+	"github.com/jrhy/s3db"
+)
+
+// verifNow is the wall clock of the process that owns the endpoint; the
+// simulator may skew it per client through s3db.VerifNow.
+func verifNow(endpoint string) time.Time {
+	if s3db.VerifNow == nil {
+		return time.Now()
+	}
+	return s3db.VerifNow(endpoint)
+}
